@@ -835,6 +835,10 @@ class ValueDecimal(Value):
         return ValueString(str(self))
 
     def asInt(self):
+        if not math.isfinite(self.value):
+            raise CklRuntimeError(
+                ValueString("ERROR"), f"Cannot convert {self.value} to int"
+            )
         return ValueInt(math.trunc(self.value))
 
     def asDecimal(self):
